@@ -23,3 +23,110 @@ K("md.sample_i16_eq_i32", ["C12", "C01"], "jxl-modular", MD_S, MD_SM, "sample_i1
   "tokens / int16 samples / i32 multipliers and offsets: i16 method == i32 method truncated to 16 bits (wrapping ring "
   "homomorphism, so out-of-range intermediates cancel exactly as in the 32-bit path) and therefore == the i32 result "
   "whenever that fits; grad_clamped needs no premise (result lies between W and N); no panic")
+K("md.sample_i16_muladd", ["C12", "C01"], "jxl-modular", MD_S, MD_SM, "sample_i16_muladd_matches_i32", "complete",
+  ["<i16 as Sealed>::wrapping_muladd_i32", "<i32 as Sealed>::wrapping_muladd_i32"],
+  "for every int16 sample and every i32 multiplier / offset of an MA-tree leaf (image.rs:887): i16 result == i32 result "
+  "truncated to 16 bits, hence == the i32 result whenever that fits in int16 (solver: Z3; SAT does not close a 16x32 multiplier equivalence)")
+
+# ---- transform/rct.rs --------------------------------------------------------------------------
+for _t in range(7):
+    K("md.rct_i32_t%d" % _t, ["C03", "C01"], "jxl-modular", MD_R, MD_RM, "rct_i32_type%d" % _t,
+      "bounded:row length 1 and 2 (complete over all sample values)", ["inverse_row_i32_base::<%d>" % _t],
+      "no precondition. (1) inverse_row_i32_base::<T>(forward RCT in Z/2^32 (v)) == v for every sample triple; the ring forward "
+      "transform equals the forward transform in mathematical integers whenever that is representable in int32; "
+      "(2) inverse_row_i32_base::<T> == H.6.3 evaluated in mathematical integers whenever every value H.6.3 names "
+      "(incl. A+C, tmp) fits in int32", quick_props=["C03"])
+    K("md.rct_i16_t%d" % _t, ["C03", "C12", "C01"], "jxl-modular", MD_R, MD_RM, "rct_i16_type%d" % _t,
+      "bounded:row length 2 (complete over all sample values)",
+      ["inverse_row_i16_base::<%d>" % _t, "inverse_row_i32_base::<%d>" % _t],
+      "C03: inverse_row_i16_base::<T>(forward RCT in Z/2^16 (v)) == v for all int16 triples. C12 premise 'truthfully 16 bit' = "
+      "every value of the 32-bit computation on the sign-extended input (outputs and the intermediates A+C, tmp) fits in int16 "
+      "(call site establishes only the header flag modular_16bit_buffers, jxl-render/src/lib.rs:280); ensures i16 kernel == "
+      "i32 kernel sample for sample; for T < 4 (no shift) i16 kernel == i32 kernel truncated, for ALL inputs",
+      quick_props=["C03", "C12"])
+K("md.rct_permutation", ["C03", "C12", "C01"], "jxl-modular", MD_R, MD_RM, "rct_permutation_contract",
+  "bounded:row length 1 and 2; permutation 0..5 (the values the standard defines)", ["inverse_permute"],
+  "channel[begin_c + permutation%3] = V[0], [(permutation+1+permutation/3)%3] = V[1], [(permutation+2-permutation/3)%3] = V[2] "
+  "(H.6.3), is a permutation, undoes the encoder-side permutation; same assignment for i16 and i32 buffers",
+  quick_props=["C03", "C12"])
+
+# ---- transform/squeeze.rs ----------------------------------------------------------------------
+K("md.sq_tendency_i32", ["C03", "C01"], "jxl-modular", MD_Q, MD_QM, "tendency_i32_contract", "complete", ["tendency_i32"],
+  "total on all i32 triples; == smooth_tendency (H.6.2) in mathematical integers whenever the dividend 4A-3C-B+/-6 fits in int32 "
+  "(tight: a witness outside the range with a different value exists; |A|,|B|,|C| < 2^28 is inside); |T| <= |dividend|/12")
+K("md.sq_tendency_i16", ["C12", "C03", "C01"], "jxl-modular", MD_Q, MD_QM, "tendency_i16_contract", "complete",
+  ["tendency_i16", "tendency_i32"],
+  "for ALL int16 triples: tendency_i32 == smooth_tendency; premise 'truthfully 16 bit' = the dividend 4A-3C-B+/-6 of the 32-bit "
+  "computation fits in int16 (holds for samples of <= 12 bits + sign: 8*4095+6 = 32766); ensures tendency_i16 == tendency_i32. "
+  "Tight: int16 samples with a larger dividend make the two differ (cover)")
+_SQ_STUB = (" Modular step: tendency_i32 / tendency_i16 and the spec's smooth_tendency are replaced by ONE abstract function "
+            "(kani::stub + Ackermann table) on the range where md.sq_tendency_i32 / md.sq_tendency_i16 prove them equal, arbitrary elsewhere.")
+for _n in range(1, 7):
+    _tier = "quick" if _n <= 4 else "thorough"
+    _to = 300 if _n <= 4 else 1200
+    _gh = "width %d, %s (stride width+1); complete over sample values" % (_n, "2 rows" if _n <= 2 else "1 row")
+    _gv = "height %d, %s (stride width+1); complete over sample values" % (_n, "2 columns" if _n <= 2 else "1 column")
+    K("md.sq_h_roundtrip_%d" % _n, ["C03"], "jxl-modular", MD_Q, MD_QM, "sq_h_roundtrip_%d" % _n, "bounded:" + _gh,
+      ["inverse_h_i32_base", "tendency_i32"],
+      "requires: the forward squeeze of the row (avg = (A+B+(A>B))>>1, residu = A-B-smooth_tendency, mathematical integers) is "
+      "representable in int32 (dividend, A-B, residu); ensures inverse_h_i32_base(coded row) == original row; padding untouched." + _SQ_STUB,
+      tier=_tier, timeout=_to)
+    K("md.sq_h_spec_%d" % _n, ["C03", "C01"], "jxl-modular", MD_Q, MD_QM, "sq_h_spec_%d" % _n, "bounded:" + _gh,
+      ["inverse_h_i32_base", "tendency_i32"],
+      "no precondition (no panic on any coded row); whenever every value of horiz_isqueeze (H.6.2: dividend, diff, first, second) "
+      "fits in int32, inverse_h_i32_base == horiz_isqueeze in mathematical integers." + _SQ_STUB,
+      tier=_tier, timeout=_to, quick_props=["C03"])
+    K("md.sq_h_16_%d" % _n, ["C12", "C01"], "jxl-modular", MD_Q, MD_QM, "sq_h_16_%d" % _n, "bounded:" + _gh,
+      ["inverse_h_i16_base", "inverse_h_i32_base", "tendency_i16", "tendency_i32"],
+      "premise 'truthfully 16 bit' = every value of the 32-bit computation of the row (dividend of smooth_tendency, diff, first, "
+      "second) fits in int16; ensures inverse_h_i16_base == inverse_h_i32_base on the sign-extended row; no panic without the premise." + _SQ_STUB,
+      tier=_tier, timeout=_to, quick_props=["C12"])
+    K("md.sq_v_roundtrip_%d" % _n, ["C03"], "jxl-modular", MD_Q, MD_QM, "sq_v_roundtrip_%d" % _n, "bounded:" + _gv,
+      ["inverse_v_i32_base", "tendency_i32"],
+      "as md.sq_h_roundtrip, along columns (vert_isqueeze)." + _SQ_STUB, tier=_tier, timeout=_to)
+    K("md.sq_v_spec_%d" % _n, ["C03", "C01"], "jxl-modular", MD_Q, MD_QM, "sq_v_spec_%d" % _n, "bounded:" + _gv,
+      ["inverse_v_i32_base", "tendency_i32"],
+      "as md.sq_h_spec, along columns (vert_isqueeze)." + _SQ_STUB, tier=_tier, timeout=_to, quick_props=["C03"])
+    K("md.sq_v_16_%d" % _n, ["C12", "C01"], "jxl-modular", MD_Q, MD_QM, "sq_v_16_%d" % _n, "bounded:" + _gv,
+      ["inverse_v_i16_base", "inverse_v_i32_base", "tendency_i16", "tendency_i32"],
+      "as md.sq_h_16, along columns." + _SQ_STUB, tier=_tier, timeout=_to, quick_props=["C12"])
+
+# ---- predictor.rs ------------------------------------------------------------------------------
+K("md.pred_numbering", ["C03", "C01"], "jxl-modular", MD_P, MD_PM, "predictor_numbering_contract", "complete",
+  ["<Predictor as TryFrom<u32>>::try_from"], "Ok(k-th predictor of the standard's table) for k < 14, Err otherwise")
+for _e, _h in (("edge", "predict_arith_edge_contract"), ("interior", "predict_arith_interior_contract")):
+    K("md.pred_arith_" + _e, ["C03", "C01"], "jxl-modular", MD_P, MD_PM, _h, "complete",
+      ["Predictor::predict", "Properties::new", "Properties::get"],
+      "for arbitrary neighbour values held by a PredictorState (EDGE = %s): predict(k) for the 13 non-weighted predictors == the "
+      "standard's predictor k on the neighbours the state reports, wrapped to 32 bits (exact when it fits); property vector 0..15 == "
+      "the standard's properties wrapped to 32 bits; no panic" % ("true" if _e == "edge" else "false"))
+for _g, _tier, _to in (("1x3", "quick", 300), ("2x3", "quick", 300), ("3x3", "quick", 300), ("4x3", "quick", 300),
+                       ("5x3", "quick", 300), ("6x4", "thorough", 1200)):
+    K("md.pred_neighbours_" + _g, ["C03", "C01"], "jxl-modular", MD_P, MD_PM, "neighbours_image_" + _g,
+      "bounded:image %s (complete over sample values)" % _g,
+      ["PredictorState::reset", "PredictorState::properties", "Properties::record", "PredictorState::{nn,ne,nee,ww}", "Properties::new"],
+      "driving the state as decode_single_node_slow does (EDGE=false only for y>=2, width>4, 2<=x<width-2): at every position the "
+      "state's W,N,NW,NE,NN,NEE,WW are the H.3 neighbours of the image (all edge rules) and properties 0..15 are the standard's "
+      "(property 8 uses property 9 of the left sample, 0 at x=0); no panic", tier=_tier, timeout=_to, quick_props=["C03"])
+K("md.wp_div_lookup", ["C03"], "jxl-modular", MD_P, MD_PM, "div_lookup_contract", "complete", ["DIV_LOOKUP"],
+  "DIV_LOOKUP[i] == (1<<24) Idiv i for i in 1..=64")
+K("md.wp_predict_total", ["C01", "C03"], "jxl-modular", MD_P, MD_PM, "wp_predict_total_contract", "complete",
+  ["SelfCorrectingPredictor::predict"],
+  "for EVERY state record() can store (any i32 true errors, any u32 error sums, header fields u(5)/u(4)) and all neighbour values: "
+  "no DIV_LOOKUP index out of range, no shift overflow, no ilog2(0), no i64/u32 arithmetic overflow; max_error is one of the four "
+  "true errors; subpred[0] == W3+NE3-N3; prediction far inside i64 (so (prediction+3)>>3 cannot overflow)")
+K("md.pred_extra_i16", ["C03", "C12", "C01"], "jxl-modular", MD_P, MD_PM, "extra_properties_i16_contract",
+  "bounded:previous channel 2x2, all positions (complete over sample values)", ["Properties::get", "Properties::get_extra", "<i16 as Sealed>::grad_clamped"],
+  "properties 16.. == abs(rC), rC, abs(rC-rG), rC-rG of the standard for the nearest previous channel, 0 beyond; no panic")
+K("md.wp_subpred_spec", ["C03"], "jxl-modular", MD_P, MD_PM, "wp_subpred_spec_contract", "complete",
+  ["SelfCorrectingPredictor::predict"],
+  "for every state and all neighbour values: the four sub-predictions and max_error == H.5 evaluated in overflow-checked i64 "
+  "(= mathematical integers). The weighted combination (error2weight, normalisation, final rounding, clamp) is NOT decided: "
+  "the equivalence does not close in 15 min", tier="thorough", timeout=1200)
+K("md.pred_extra_i32_values", ["C03"], "jxl-modular", MD_P, MD_PM, "extra_properties_i32_values_contract",
+  "bounded:previous channel 2x2, all positions (complete over sample values except -2^31)", ["Properties::get", "Properties::get_extra", "<i32 as Sealed>::grad_clamped"],
+  "as md.pred_extra_i16 for 32-bit buffers, with the EXPLICIT exclusion rC != -2^31 (not a call-site guarantee: that single value "
+  "is the totality defect reported by md.pred_extra_i32 under C01; without overflow checks the code returns the standard's wrapped value there)")
+K("md.pred_extra_i32", ["C01"], "jxl-modular", MD_P, MD_PM, "extra_properties_i32_contract",
+  "bounded:previous channel 2x2, all positions (complete over sample values)", ["Properties::get", "Properties::get_extra", "<i32 as Sealed>::grad_clamped"],
+  "same as md.pred_extra_i16 for 32-bit buffers; previous-channel samples are any i32 the stream decoded (no precondition)")
